@@ -72,6 +72,11 @@ def gen_det(rng):
             "ov": rng.choice([0, 1, 4]), "quiet": rng.random() < 0.15, "prior": rng.choice([0, 0, 0, 0, 1, 1, 2, 2])}
 
 
+def _same_labels(a, b):
+    """same labels and same index name(s); the concrete Index subclass is not part of the claim"""
+    return bool(a.equals(b)) and list(a.names) == list(b.names)
+
+
 def outputs(det, kind, X, c, is_ref):
     """what the entry point returns, as comparable signatures; dense outputs also carry their index"""
     out = {}
@@ -107,14 +112,14 @@ def outputs(det, kind, X, c, is_ref):
         d = det.transform(X)
         out["dense"] = json.dumps(np.asarray(d).tolist())
         want_idx = idx0 if idx0 is not None else pd.RangeIndex(len(X))
-        out["index_ok"] = bool(d.index.identical(want_idx)) and (idx0 is None or bool(X.index.identical(idx0)))
+        out["index_ok"] = _same_labels(d.index, want_idx) and (idx0 is None or _same_labels(X.index, idx0))
     else:
         try:
             s = det.transform_scores(X)
             out["scores"] = [float(v) for v in np.asarray(s).reshape(-1)]
             want_idx = idx0 if idx0 is not None else pd.RangeIndex(len(X))
-            out["index_ok"] = (bool(s.index.identical(want_idx)) if hasattr(s, "index") and len(s) == len(X) else True) and (
-                idx0 is None or bool(X.index.identical(idx0)))
+            out["index_ok"] = (_same_labels(s.index, want_idx) if hasattr(s, "index") and len(s) == len(X) else True) and (
+                idx0 is None or _same_labels(X.index, idx0))
         except NotImplementedError:
             out["scores"] = "not-implemented"
     return out
